@@ -1,6 +1,8 @@
 import BornoModel.Eval
 import BornoModel.Props.C09
 import BornoModel.Lemmas.EvalInv
+import BornoModel.Lemmas.ParseSafe
+import BornoModel.Cli
 /-! # C07 — no program can make the interpreter terminate abnormally
 
 In the model every partial host operation of the Go code (index, slice, unchecked assertion,
@@ -13,6 +15,30 @@ open Borno
 theorem lexer_no_panic (lm : Char → Bool) (hlm : lm '\n' = false) (src : List Char) : Lexer.scan lm src ≠ none := by
   obtain ⟨t, d, h⟩ := C09.scan_total lm hlm src
   rw [h]; simp
+
+/-- **the parser never indexes past the end of the token list**: whatever the scanner returns ends in
+    exactly one EOF token, and on such a list no parsing function — with any fuel — yields the
+    panic outcome (the model's stand-in for Go's index-out-of-range) -/
+theorem parser_no_panic (lm : Char → Bool) (hlm : lm '\n' = false) (src : List Char) (toks : List Token) (ds : List Diag)
+    (hs : Lexer.scan lm src = some (toks, ds)) (f : Nat) : Parser.program f toks ≠ .abn .panic := by
+  obtain ⟨body, hb, hne⟩ := C09.single_eof_last lm hlm src toks ds hs
+  exact Parser.parse_no_panic f toks ⟨body, _, hb, rfl, hne⟩
+
+/-- so the whole front end never panics, on any text -/
+theorem front_end_no_panic (lm : Char → Bool) (hlm : lm '\n' = false) (src : List Char) :
+    (Cli.frontEnd lm src).abnormal ≠ some .panic := by
+  unfold Cli.frontEnd
+  obtain ⟨toks, ds, hs⟩ := C09.scan_total lm hlm src
+  simp only [hs]
+  have hp := parser_no_panic lm hlm src toks ds hs (Parser.fuelFor toks)
+  unfold Parser.parse
+  cases hr : Parser.program (Parser.fuelFor toks) toks with
+  | ok p r pd => simp
+  | err pd => simp
+  | abn a =>
+    rw [hr] at hp
+    simp only [ne_eq, Option.some.injEq]
+    intro e; subst e; exact hp rfl
 
 /-- operators are total functions into "value or reported error": `==` on any two values, shifts by any
     count, `%` and `/` by zero, all yield a value or an error message — there is no third outcome -/
@@ -116,6 +142,50 @@ theorem eval_no_panic (P : Platform) (fuel : Nat) (prog : List Stmt) (repl : Boo
   cases h : interpretLoop P fuel prog 1 repl (initStore input) with
   | ok a σ => simp
   | abn x => rw [h] at this; intro e; cases e; exact this rfl
+
+/-- **no text whatever makes the pipeline panic**: `run` (scan, parse, interpret) on any source text,
+    with any stdin, platform and fuel, ends with its outputs, or out of the model's fuel, or in the
+    cyclic-print finding — never in the panic outcome.  (Scanner total, parser never past EOF,
+    a rejected text always carries a diagnostic, evaluator invariant.) -/
+theorem pipeline_no_panic (P : Platform) (hlm : P.lm '\n' = false) (fuel : Nat) (src : List Char) (repl : Bool) (input : List Char) :
+    (Cli.run P fuel src repl input).abnormal ≠ some .panic := by
+  have hfe := front_end_no_panic P.lm hlm src
+  unfold Cli.run
+  cases hab : (Cli.frontEnd P.lm src).abnormal with
+  | some a =>
+    simp only [hab]
+    rw [hab] at hfe
+    exact hfe
+  | none =>
+    simp only [hab]
+    cases hd : (Cli.frontEnd P.lm src).diags with
+    | cons d ds => simp [hd]
+    | nil =>
+      simp only [hd, List.isEmpty_nil, Bool.not_true, Bool.false_eq_true, if_false]
+      cases hp : (Cli.frontEnd P.lm src).prog with
+      | none =>
+        -- no tree, no diagnostic, no abnormal outcome: impossible
+        exfalso
+        unfold Cli.frontEnd at hab hd hp
+        obtain ⟨toks, ld, hs⟩ := C09.scan_total P.lm hlm src
+        simp only [hs] at hab hd hp
+        unfold Parser.parse at hab hd hp
+        cases hr : Parser.program (Parser.fuelFor toks) toks with
+        | ok p r pd => simp [hr] at hp
+        | err pd =>
+          simp only [hr] at hd
+          have := Parser.program_err_nonempty _ _ pd hr
+          cases ld <;> cases pd <;> simp_all
+        | abn a => simp [hr] at hab
+      | some prog =>
+        simp only [hp]
+        have := eval_no_panic P fuel prog repl input
+        cases hi : interpret P fuel prog repl input with
+        | ok u σ => simp
+        | abn a =>
+          rw [hi] at this
+          simp only [ne_eq, Option.some.injEq]
+          intro e; subst e; exact this rfl
 
 /-- the same for any expression or statement evaluated in any store (not only whole programs) -/
 theorem eval_no_panic_anywhere (P : Platform) (f : Nat) (e : Expr) (s : Stmt) (env : Nat) (repl : Bool) (σ : Store) :
